@@ -51,3 +51,48 @@ func VerifHarness_C13_EnumLookup() {
 		verifAssert("unnamed-type-is-no-enum", !e.OK)
 	}
 }
+
+// VerifHarness_C13_RecursiveTypes: self-referencing and mutually recursive named types of every constructor
+// that may close a cycle (type L []L, type P *P, type M map[string]M, type C chan C, type S struct{ Next *S },
+// type A []B with type B map[string]A, ...) are analysed in bounded depth: TypeOf, the rendering of the type,
+// its zero value and its identifier terminate.
+func VerifHarness_C13_RecursiveTypes() {
+	cyc := []int{VerifCtorPointer, VerifCtorSlice, VerifCtorMap, VerifCtorChan, VerifCtorStruct, VerifCtorArray}
+	a := types.NewNamed(types.NewTypeName(0, verifUserPkg, "A", nil), nil, nil)
+	c1 := cyc[nondetChoice("a.ctor", 5)]
+	var t types.Type = a
+	if nondetChoice("mutual", 2) == 0 {
+		inner := func(string) types.Type { return a }
+		if c1 == VerifCtorStruct {
+			inner = func(string) types.Type { return types.NewPointer(a) }
+		}
+		a.SetUnderlying(verifShape("a", c1, inner))
+	} else {
+		b := types.NewNamed(types.NewTypeName(0, verifUserPkg, "B", nil), nil, nil)
+		c2 := cyc[nondetChoice("b.ctor", 6)]
+		a.SetUnderlying(verifShape("a", c1, func(string) types.Type {
+			if c1 == VerifCtorStruct {
+				return types.NewSlice(b)
+			}
+			return b
+		}))
+		b.SetUnderlying(verifShape("b", c2, func(string) types.Type {
+			if c2 == VerifCtorStruct || c2 == VerifCtorArray {
+				return types.NewPointer(a)
+			}
+			return a
+		}))
+		if nondetChoice("entry", 2) == 1 {
+			t = types.NewSlice(b)
+		}
+	}
+	rt := TypeOf(t)
+	verifReach("typeof")
+	verifAssert("typeof-describes-the-type", rt != nil && rt.T == t)
+	_ = rt.TypeAsJen()
+	verifReach("tocode")
+	_ = ZeroValue(t)
+	verifReach("zerovalue")
+	_ = rt.ID()
+	verifReach("id")
+}
